@@ -2,7 +2,7 @@
 Same op lines and answers as `DrvCLFees`; new: `incentive <id> <denom> <amount> <rate> <startNs> <uptimeIdx>`,
 `advance <ns>`, `sync`, `icollect <sender> <id>`, `idump` (accumulators, tick trackers, incentive records, position
 uptime records, claimable incentives, incentive balances); `reset` takes two more optional arguments (incentive scaling
-factor, number of authorised uptimes). -/
+factor, bit mask of the authorised uptimes). -/
 import OsmoVerif.Model.CLInc
 import OsmoVerif.Model.CLFullGenesis
 import OsmoVerif.Model.DrvCLFees
